@@ -3,6 +3,7 @@
  */
 
 #pragma once
+#include "verif_hooks.h"
 
 #include "kvs.h"
 #include "log.h"
@@ -109,6 +110,7 @@ retry_from_root:
          * @a root is the root node of the some layer, but it was deleted.
          * So it must retry from root of the all tree.
          */
+        YK_WAIT(YK_W_RETRY, nullptr);
         goto retry_from_root; // NOLINT
     }
     constexpr std::size_t tuple_node_index = 0;
@@ -143,6 +145,7 @@ retry_from_root:
          * fail. It will clear all tuple and node information after goto.
          */
         if (check_status == status::OK_RETRY_FROM_ROOT) {
+            YK_WAIT(YK_W_RETRY, nullptr);
             goto retry_from_root; // NOLINT
         } else {
             // unreachable
